@@ -402,20 +402,18 @@ Definition pop_copy_restore (restore_in_finally : bool) (fault : bool) (n : nat)
   match dict_pop h l k_data with
   | Err e => (h, None, Some e)
   | Ok (h1, tmp) =>
-      if fault then
-        (* deepcopy raises: the restore statement is skipped unless the source protects it *)
-        if restore_in_finally
-        then match dict_set h1 l k_data tmp with Ok h2 => (h2, None, Some RuntimeError) | Err e => (h1, None, Some e) end
-        else (h1, None, Some RuntimeError)
-      else
-        match deepcopy n h1 (VRef l) with
-        | Err e => (h1, None, Some e)
-        | Ok (h2, cj) =>
-            match dict_set h2 l k_data tmp with
-            | Ok h3 => (h3, Some cj, None)
-            | Err e => (h2, None, Some e)
-            end
-        end
+      match (if fault then Err RuntimeError else deepcopy n h1 (VRef l)) with
+      | Ok (h2, cj) =>
+          match dict_set h2 l k_data tmp with
+          | Ok h3 => (h3, Some cj, None)
+          | Err e => (h2, None, Some e)
+          end
+      | Err e =>
+          (* deepcopy raised: the restore statement is skipped unless the source puts it in a finally clause *)
+          if restore_in_finally
+          then match dict_set h1 l k_data tmp with Ok h2 => (h2, None, Some e) | Err _ => (h1, None, Some e) end
+          else (h1, None, Some e)
+      end
   end.
 
 Definition dso (restore_in_finally : bool) (fault : option nat) (n : nat) (h : heap) (a b : loc)
